@@ -460,7 +460,7 @@ CLAIMS = [
           "classification, res' = res*r+d exactly, overflow exit iff res*r+d > u64::MAX, tail exit on every non-digit "
           "(the decimal exponent marker included), no reachable overflow/division panic",
           "any number of digits (one-step induction from an arbitrary u64 accumulator); 4 radixes; reader with EOF and "
-          "I/O error at an arbitrary position", configs=("fast", "nofast"), also=("C01", "C13", "C03")),
+          "I/O error at an arbitrary position", configs=("fast", "nofast"), also=("C01", "C13", "C03", "C06", "C04")),
     Claim("c05_num_tail", "C05", "quick", claim_num_tail,
           "parse_num_tail maps (sign, magnitude) to exactly the integer in [-2^63, 2^64-1] (-0, -2^63, 2^63 included), "
           "to the nearest double below that range, and enters the fraction/exponent scanners only for radix 10",
@@ -468,7 +468,7 @@ CLAIMS = [
     Claim("c05_long_integer_step", "C05", "quick", claim_long_integer,
           "parse_long_integer counts exactly the remaining digits of an over-long integer and hands "
           "significand x radix^k (in the stated radix) to the float conversion",
-          "any number of further digits < 2^31-2 (one-step induction); 4 radixes", configs=("fast",), also=("C03",)),
+          "any number of further digits < 2^31-2 (one-step induction); 4 radixes", configs=("fast",), also=("C03", "C06", "C01", "C13")),
 ]
 
 
@@ -767,11 +767,11 @@ CLAIMS += [
           "parse_decimal: every fraction digit maps (sig, exp) to (sig*10+d, exp-1) while it fits u64, further digits "
           "are skipped without changing the value, at least one digit is required, and the scanner continues with "
           "the exponent or the float conversion on exactly (sign, sig, exp)",
-          "any number of fraction digits (one-step induction on both loops), |exp| < 2^30", configs=("fast",), also=("C01", "C13", "C03")),
+          "any number of fraction digits (one-step induction on both loops), |exp| < 2^30", configs=("fast",), also=("C01", "C13", "C03", "C06")),
     Claim("c05_exponent_step", "C05", "quick", claim_exponent,
           "parse_exponent: exponent digits accumulate exactly in i32, overflow goes to the overflow handler, and the "
           "float conversion receives starting_exp +/- exp (saturating) with the unchanged significand and sign",
-          "any number of exponent digits (one-step induction)", configs=("fast",), also=("C03",)),
+          "any number of exponent digits (one-step induction)", configs=("fast",), also=("C03", "C06")),
     Claim("c05_exponent_overflow", "C05", "quick", claim_exponent_overflow,
           "an exponent beyond i32 gives out-of-range for a non-zero significand with positive exponent and a signed "
           "zero otherwise; only digits are skipped", "all inputs", configs=("fast",)),
